@@ -2,7 +2,8 @@
 # Must-fail corpus: every mutant (a sed script or a patch against /repo) must make the
 # check of its property exit 1 with a VIOLATION line; the unchanged tree must exit 0.
 # usage: selftest/run.sh [ID...]
-cd /verif
+VROOT=${VROOT:-/verif}   # a snapshot copy of /verif may be given (with REPO) for long background runs
+cd $VROOT
 REPO=${REPO:-/repo}   # a scratch worktree may be given so that /repo stays untouched while this runs
 # evidence of mutated trees goes to a scratch directory, never to /verif/evidence
 export VERIF_EVIDENCE_DIR=$(mktemp -d); trap 'rm -rf "$VERIF_EVIDENCE_DIR"' EXIT
@@ -10,11 +11,11 @@ ids="$@"
 [ -z "$ids" ] && ids=$(ls selftest/mutants)
 fail=0
 for id in $ids; do
-  for m in /verif/selftest/mutants/$id/*.diff; do
+  for m in $VROOT/selftest/mutants/$id/*.diff; do
     [ -f "$m" ] || continue
     if ! git -C $REPO apply --check "$m" 2>/dev/null; then echo "SKIP(no-apply) $m"; fail=1; continue; fi
     git -C $REPO apply "$m"
-    out=$(./bin/govc check $id --repo $REPO 2>&1); rc=$?
+    out=$(./bin/govc check $id --repo $REPO --verif $VROOT 2>&1); rc=$?
     git -C $REPO apply -R "$m"
     if [ $rc -eq 1 ] && echo "$out" | grep -q "^VIOLATION property=$id"; then
       echo "KILLED  $m  ($(echo "$out" | grep -c '^VIOLATION') violations: $(echo "$out" | grep '^VIOLATION' | head -1 | sed 's/.*obligation=//'))"
